@@ -84,9 +84,12 @@ class Env:
         return VALUES[(x >> 8) % len(VALUES)]
 
     # ------------------------------------------------------------ E
-    def _call(self, site=None, *args):
+    def _call(self, site=None, *args, **kwargs):
         n = self.n
-        self._interact("call", site, tuple(_arg_repr(a) for a in args))
+        rec = tuple(_arg_repr(a) for a in args)
+        if kwargs:
+            rec += tuple("%s=%s" % (k, _arg_repr(v)) for k, v in sorted(kwargs.items()))
+        self._interact("call", site, rec)
         return self._value(n)
 
     # ------------------------------------------------------------ I
